@@ -136,7 +136,8 @@ def specs_for(ctx):
         meta["emitted_states_big"] = len(states_b)
         for st in rng.sample(states_b, min(1500, len(states_b))):
             w = World(st["modules"], st["imports"])
-            sets = [partitions(rng, tops_of(w), rng.randint(2, 4), kinds=rng.choice(["names", "regex", "mixed"]))]
+            tops = tops_of(w)
+            sets = [partitions(rng, tops, rng.randint(2, min(4, len(tops))), kinds=rng.choice(["names", "regex", "mixed"]))]
             specs.append(_episode(rng, w, sets, n_rules=40))
     n_worlds = 70 if ctx.quick else 1500
     made = 0
